@@ -135,6 +135,14 @@ def gen_hierarchy(rng):
                     'expr': deckmod.leaf_expr(lits), 'imp': {'n': 1}, 'u': u,
                     'lat': None, 'fill': None, 'trcl': common_trcl,
                     'like': None})
+    # some filler cells are declared with U=-n: same universe n.  (MCNP then
+    # skips the truncation by the container and trusts the user that the cell
+    # lies inside it; the universe the cell belongs to is n either way, which
+    # is all the converter and the reference use.)
+    if rng.random() < 0.35:
+        fillers = [c for c in deck['cells'] if c['u'] != 0]
+        for c in rng.sample(fillers, rng.randint(1, max(1, len(fillers) // 2))):
+            c['u'] = -c['u']
     level0 = [c for c in deck['cells'] if c['u'] == 0]
     if rng.random() < 0.3:
         rng.choice(level0)['imp'] = {'n': 0}
@@ -154,6 +162,13 @@ def expected_provenance(chain):
 
 def compare(deck, t4, points, eps=1e-6):
     '''(checked, located_deep, failures)'''
+    if any(c['u'] < 0 for c in deck['cells']):
+        # MCNP: U=-n is universe n (the sign is a "not truncated by the
+        # container" hint); mcnpref compares universe numbers literally
+        import copy
+        deck = copy.deepcopy(deck)
+        for c in deck['cells']:
+            c['u'] = abs(c['u'])
     ref = mcnpref.Reference(deck, eps=eps)
     evalr = t4eval.Evaluator(t4, eps=eps)
     failures = []
